@@ -603,7 +603,11 @@ func master(p *Property, tier string, n int, name func(int) string, only string,
 		os.MkdirAll(filepath.Dir(path), 0o755)
 		os.WriteFile(path, append(b, '\n'), 0o644)
 		fmt.Printf("VIOLATION property=%s replay=%s\n", p.ID, path)
-		fmt.Printf("  case %s\n  %s\n", u.Case, u.Msg)
+		msg := u.Msg
+		if len(msg) > 1600 {
+			msg = msg[:1600] + " ... (the complete message is in the replay file)"
+		}
+		fmt.Printf("  case %s\n  %s\n", u.Case, msg)
 	}
 	return 1
 }
